@@ -26,6 +26,12 @@ Inductive row_in : item -> bool -> str -> name -> pyuuid -> Prop :=
 | RI_row ty n u cs : row_in (IRow ty n u cs) false ty n u
 | RI_block its x b ty n u : In x its -> row_in x b ty n u -> row_in (IBlock its) true ty n u.
 
+(* [test_in it c]: somewhere in the item (any depth of inserted templates) a row — of any type — has
+   an outgoing edge with a group test naming c *)
+Inductive test_in : item -> name -> Prop :=
+| TI_row ty n u cs c : In c cs -> test_in (IRow ty n u cs) c
+| TI_block its x c : In x its -> test_in x c -> test_in (IBlock its) c.
+
 (* ---- dictionaries only grow: a truthy binding stays, no duplicate key appears ---- *)
 Definition grows (a b : udict) : Prop :=
   (forall k n u, dget (sel k a) n = Some u -> truthy u = true -> dget (sel k b) n = Some u)
@@ -178,11 +184,83 @@ Proof.
   subst ns. unfold carries_ref in Hc. apply andb_prop in Hc as [Hc Hs].
   unfold hook_linked in Hl. unfold node_of, carried. rewrite Hc, Ht. cbn [andb].
   apply orb_prop in Hs as [Hs|Hs]; apply N.eqb_eq in Hs; rewrite Hs in *; cbn in Hk; injection Hk as <-.
-  - cbn [flat_map node_refs n_actions n_cases app]. rewrite app_nil_r. cbn [flat_map app]. rewrite app_nil_r.
+  - cbn [flat_map node_refs n_actions n_cases app]. rewrite app_nil_r. cbn [flat_map app].
     unfold action_refs. cbn [a_type a_groups]. rewrite Hl. cbn. left. reflexivity.
-  - cbn [flat_map node_refs n_actions n_cases app]. rewrite app_nil_r. cbn [flat_map app]. rewrite app_nil_r.
+  - cbn [flat_map node_refs n_actions n_cases app]. rewrite app_nil_r. cbn [flat_map app].
     unfold action_refs. cbn [a_type a_flow]. rewrite Hl. cbn. left. reflexivity.
 Qed.
+
+(* ---- a has_group condition on an edge leaving a row of ANY type is a reference the container's
+        hooks visit: the row's node carries (KGroup, (c, None)) ---- *)
+Lemma in_case_refs_map (f : name -> rcase) cs c :
+  (forall x, case_refs ct_ (f x) = [(KGroup, (x, None))]) -> In c cs ->
+  In (KGroup, (c, None)) (flat_map (case_refs ct_) (map f cs)).
+Proof.
+  intros Hf Hin. apply in_flat_map. exists (f c). split; [apply in_map, Hin|rewrite Hf; left; reflexivity].
+Qed.
+
+Lemma edge_test_row ud ty n u cs ud' ns c :
+  parse_row ud ty n u cs = Ok (ud', ns) -> In c cs ->
+  mem_str ct_ uuid_edge_group_test = true ->
+  (h_shape (hook ty) = 3%N -> mem_str ct_ (h_atype (hook ty)) = true) ->
+  In (KGroup, (c, None)) (flat_map (node_refs at_ ct_) ns).
+Proof.
+  intros H Hin Hg H3.
+  assert (Hns : ns = [node_of (hook ty) n u cs]).
+  { unfold Sheet.parse_row in H. destruct (kind_of_shape (h_shape (hook ty))) as [k|].
+    - destruct (h_rec (hook ty) && truthy u).
+      + destruct (record_k k ud n u); [|discriminate]. injection H as _ <-. reflexivity.
+      + injection H as _ <-. reflexivity.
+    - injection H as _ <-. reflexivity. }
+  subst ns. cbn [flat_map]. rewrite app_nil_r. unfold node_refs. apply in_or_app. right.
+  assert (He : forall x, case_refs ct_ (edge_case x) = [(KGroup, (x, None))]).
+  { intro x. unfold case_refs, edge_case. cbn [k_type k_name k_uuid]. rewrite Hg. reflexivity. }
+  unfold node_of. destruct (h_shape (hook ty)) as [|p] eqn:Hs.
+  - cbn [n_cases]. apply in_case_refs_map; assumption.
+  - destruct p as [[|p|]|[|p|]|]; cbn [n_cases]; try (apply in_case_refs_map; assumption).
+    apply in_case_refs_map; [|assumption].
+    intro x. unfold case_refs. cbn [k_type k_name k_uuid]. rewrite (H3 eq_refl). reflexivity.
+Qed.
+
+Lemma edge_test_items_of its c : Forall (fun it => forall ud ud' ns, test_in it c ->
+    parse_item ud it = Ok (ud', ns) -> In (KGroup, (c, None)) (flat_map (node_refs at_ ct_) ns)) its ->
+  forall it ud ud' ns, In it its -> test_in it c ->
+    parse_items ud its = Ok (ud', ns) -> In (KGroup, (c, None)) (flat_map (node_refs at_ ct_) ns).
+Proof.
+  induction 1 as [|y r Hy Hr IH]; intros it ud ud' ns Hin Ht H; [contradiction|].
+  rewrite parse_items_cons in H. destruct (parse_item ud y) as [[ud1 ns1]|e] eqn:E1; [|discriminate].
+  destruct (parse_items ud1 r) as [[ud2 ns2]|e] eqn:E2; [|discriminate]. injection H as _ <-.
+  rewrite flat_map_app. apply in_or_app. destruct Hin as [->|Hin].
+  - left. apply (Hy _ _ _ Ht E1).
+  - right. apply (IH _ _ _ _ Hin Ht E2).
+Qed.
+
+Section EdgeTests.
+Hypothesis Hg : mem_str ct_ uuid_edge_group_test = true.
+Hypothesis H3 : forall ty, h_shape (hook ty) = 3%N -> mem_str ct_ (h_atype (hook ty)) = true.
+
+Lemma edge_test_item it c : forall ud ud' ns, test_in it c ->
+  parse_item ud it = Ok (ud', ns) -> In (KGroup, (c, None)) (flat_map (node_refs at_ ct_) ns).
+Proof.
+  induction it as [ty0 n0 u0 cs|its IH] using item_ind2; intros ud ud' ns Ht H.
+  - inversion Ht as [ty n u cs' c' Hin|]; subst. apply (edge_test_row _ _ _ _ _ _ _ _ H Hin Hg (H3 ty0)).
+  - inversion Ht as [|its' x c' Hin Hx]; subst. destruct sh_cases as [E0|E0].
+    + rewrite (parse_item_block_shared _ _ E0) in H. apply (edge_test_items_of _ _ IH _ _ _ _ Hin Hx H).
+    + rewrite (parse_item_block_fresh _ _ E0) in H. destruct (parse_items empty_udict its) as [[ud1 ns1]|e] eqn:E; [|discriminate]. injection H as _ <-.
+      apply (edge_test_items_of _ _ IH _ _ _ _ Hin Hx E).
+Qed.
+
+(* FlowParser.parse: the flow it returns has the test among the references the container visits *)
+Lemma edge_test_flow ud fs ud' f it c : parse_flow ud fs = Ok (ud', f) -> In it (fs_items fs) -> test_in it c ->
+  In (KGroup, (c, None)) (flow_refs at_ ct_ f).
+Proof.
+  intros H Hin Ht. unfold Sheet.parse_flow in H.
+  destruct (Sheet.parse_items rh_ sh_ ud (fs_items fs)) as [[ud1 ns]|e] eqn:E; [|discriminate].
+  injection H as _ <-. unfold flow_refs. cbn [f_nodes].
+  apply (edge_test_items_of (fs_items fs) c) with (it := it) (ud := ud) (ud' := ud1); try assumption.
+  apply Forall_forall. intros x _. apply edge_test_item.
+Qed.
+End EdgeTests.
 
 Lemma carried_items_of its : Forall (fun it => forall b ty n u ud ud' ns k, row_in it b ty n u ->
     parse_item ud it = Ok (ud', ns) -> truthy u = true -> kind_of_shape (h_shape (hook ty)) = Some k ->
@@ -566,7 +644,9 @@ Definition sheet_tables_ok : bool :=
   && N.eqb (h_shape (hook_of uuid_row_hooks s_add_to_group)) 1
   && N.eqb (h_shape (hook_of uuid_row_hooks s_remove_from_group)) 1
   && N.eqb (h_shape (hook_of uuid_row_hooks s_start_new_flow)) 2
-  && N.eqb (h_shape (hook_of uuid_row_hooks s_split_by_group)) 3.
+  && N.eqb (h_shape (hook_of uuid_row_hooks s_split_by_group)) 3
+  (* a has_group condition on an edge leaving any row becomes a test the container's hooks visit *)
+  && mem_str Rc uuid_edge_group_test.
 
 Lemma sheet_tables_ok_true : sheet_tables_ok = true.
 Proof. vm_compute. reflexivity. Qed.
@@ -582,7 +662,7 @@ Qed.
 Lemma hook_ok_all ty : hook_ok (hook_of uuid_row_hooks ty) = true.
 Proof.
   pose proof sheet_tables_ok_true as H. unfold sheet_tables_ok in H.
-  do 4 (apply andb_prop in H as [H _]). rewrite forallb_forall in H.
+  do 5 (apply andb_prop in H as [H _]). rewrite forallb_forall in H.
   destruct (hook_of_cases uuid_row_hooks ty) as [->|(e & He & ->)]; [reflexivity|apply H, He].
 Qed.
 
@@ -615,6 +695,7 @@ Lemma group_action_rows : h_shape (hook_of uuid_row_hooks s_add_to_group) = 1%N 
   /\ h_shape (hook_of uuid_row_hooks s_start_new_flow) = 2%N /\ h_shape (hook_of uuid_row_hooks s_split_by_group) = 3%N.
 Proof.
   pose proof sheet_tables_ok_true as H. unfold sheet_tables_ok in H.
+  apply andb_prop in H as [H _].
   apply andb_prop in H as [H H4]. apply andb_prop in H as [H H3]. apply andb_prop in H as [H H2]. apply andb_prop in H as [_ H1].
   apply N.eqb_eq in H1, H2, H3, H4. auto.
 Qed.
@@ -775,6 +856,43 @@ Example sheet_conflict_rejected_nonvacuous :
 Proof.
   split; [vm_compute; reflexivity|]. split; [vm_compute; reflexivity|].
   split; [repeat constructor; cbn; intuition discriminate|]. split; [discriminate|vm_compute; reflexivity].
+Qed.
+
+(* ---- group tests on edges leaving rows of any type ---- *)
+Theorem sheet_edge_tests_are_refs ud fs ud' f it c :
+  parse_flow uuid_row_hooks uuid_block_shared ud fs = Ok (ud', f) -> In it (fs_items fs) -> test_in it c ->
+  In (KGroup, (c, None)) (flow_refs R Rc f).
+Proof.
+  apply edge_test_flow.
+  - pose proof sheet_tables_ok_true as H. unfold sheet_tables_ok in H. apply andb_prop in H as [_ H]. exact H.
+  - intros ty Hs. pose proof (hook_ok_all ty) as H. unfold hook_ok in H. rewrite Hs in H.
+    apply andb_prop in H as [_ H]. exact H.
+Qed.
+
+Definition s_wait_for_response : str := [119; 97; 105; 116; 95; 102; 111; 114; 95; 114; 101; 115; 112; 111; 110; 115; 101]%N.
+Definition s_split_by_value : str := [115; 112; 108; 105; 116; 95; 98; 121; 95; 118; 97; 108; 117; 101]%N.
+Definition s_no_op : str := [110; 111; 95; 111; 112]%N.
+
+(* has_group conditions on edges leaving a wait_for_response row, a split_by_value row inside an
+   inserted template, a no_op decision and an add_to_group row: after parse_all + validate the five
+   tests, the action and the top-level list all carry the obj_id of the add_to_group row *)
+Definition ex_sheet_edge_wb : workbook :=
+  {| wb_flows := [{| fs_name := nF; fs_items := [IRow s_wait_for_response [] None [nG];
+                                                  IBlock [IRow s_split_by_value [] None [nG; nG]];
+                                                  IRow s_no_op [] None [nG]] |};
+                  {| fs_name := nF2; fs_items := [IRow s_add_to_group nG uA [nG]] |}];
+     wb_campaigns := []; wb_triggers := [] |}.
+
+Example sheet_edge_tests_nonvacuous : exists st st',
+  sheet_parse_all ex_sheet_edge_wb = Ok st /\ validate st = Ok st'
+  /\ length (filter (fun o => match fst o with KGroup => true | KFlow => false end) (occs (st_c st'))) = 7%nat
+  /\ forallb (fun o => match fst o with KGroup => pyuuid_eqb (snd (snd o)) uA | KFlow => true end) (occs (st_c st')) = true.
+Proof.
+  destruct (sheet_parse_all ex_sheet_edge_wb) as [st|e] eqn:E; [|vm_compute in E; discriminate].
+  destruct (validate st) as [st'|e] eqn:E'.
+  - exists st, st'. split; [reflexivity|]. split; [exact E'|].
+    vm_compute in E. injection E as <-. vm_compute in E'. injection E' as <-. vm_compute. split; reflexivity.
+  - vm_compute in E. injection E as <-. vm_compute in E'. discriminate.
 Qed.
 
 Example sheet_history_wins_nonvacuous : exists st1 st2 st3,
